@@ -514,7 +514,32 @@ def hello_sends_the_requests_once(b):
   msg = b.new(of.ofp_hello)
   return Case(HandshakeOpenFlowHandlers.handle_HELLO, [h, con, msg], calls=cs, raises={}, ensures={
     "one_send_the_first_time_none_later": lambda res: len([e for e in log(b) if e[0] == "send"]) == (0 if sent else 1),
+    # (sixth round, 2026-09-25: a seeded change set the flag only on the path WITHOUT a description request, so with the default
+    # settings every further HELLO re-sent the requests - and a switch answering all of them was disconnected)
+    "the_requests_are_marked_as_sent_whichever_form_they_took": lambda res: h._features_request_sent is True,
   })
+
+
+def _mk_hello_twice(want_desc):
+  def u(b):
+    nexus, con, other, third, dpid, halt, cs, h, feats, msgs = handshake_env(b, "absent")
+    b.set(h, "_features_request_sent", False)
+    b.set(h, "request_description", want_desc)
+    m1, m2 = b.new(of.ofp_hello), b.new(of.ofp_hello)
+    def run(h, con):
+      h.handle_HELLO(con, m1)
+      h.handle_HELLO(con, m2)
+      return None
+    return Case(run, [h, con], calls=cs, raises={}, ensures={
+      "a_second_hello_sends_nothing": lambda res: len([e for e in log(b) if e[0] == "send"]) == 1,
+    })
+  u.__name__ = "two_hellos_one_features_request_%s" % ("with_description_request" if want_desc else "plain")
+  u.bound = "two HELLO messages"
+  unit(P, target=OF + "HandshakeOpenFlowHandlers.handle_HELLO")(u)
+
+
+_mk_hello_twice(True)
+_mk_hello_twice(False)
 
 
 # the accept/read loop: an accepted connection joins the select set, a connection whose read() fails or reports closed is
@@ -588,3 +613,47 @@ def a_message_behind_the_one_that_switches_the_handler_table_goes_to_the_new_tab
     "nothing_stays_buffered": lambda res: len(res[2]) == 0,
   })
 a_message_behind_the_one_that_switches_the_handler_table_goes_to_the_new_table.bound = "one chunk: a barrier reply and an echo request (body 0..40 bytes)"
+
+
+# ---------------------------------------------------------------- the handler tables: a type without a handler of its own gets the default
+# (sixth round, 2026-09-25: a seeded change padded a growing table with the handler being added instead of the do-nothing
+# default - in the handshake's table every type without its own handler then went to its barrier-reply handler, so a packet-in
+# between features reply and barrier reply was taken for a wrong barrier and the switch was disconnected)
+from pox.openflow.of_01 import OpenFlowHandlers as _OFH
+
+
+def _hA(con, msg):
+  pass
+
+
+def _hB(con, msg):
+  pass
+
+
+def _mk_padding(t1, t2):
+  def u(b):
+    tab = b.raw_new(_OFH, handlers=b.list([]))
+    def run(tab):
+      tab.add_handler(t1, _hA)
+      mid = [x for x in tab.handlers]
+      tab.add_handler(t2, _hB)
+      return (mid, [x for x in tab.handlers])
+    def is_default(x):
+      return x == tab.handle_default
+    def ok_first(mid):
+      return len(mid) == t1 + 1 and all([(mid[i] is _hA) if i == t1 else is_default(mid[i]) for i in range(len(mid))])
+    def ok_second(fin):
+      n = max(t1, t2) + 1
+      return len(fin) == n and all([(fin[i] is _hB) if i == t2 else ((fin[i] is _hA) if i == t1 else is_default(fin[i]))
+                                    for i in range(len(fin))])
+    return Case(run, [tab], raises={}, ensures={
+      "after_the_first_registration_every_other_slot_holds_the_default": lambda res: ok_first(res[0]),
+      "after_the_second_only_the_two_registered_types_have_their_handlers": lambda res: ok_second(res[1]),
+    })
+  u.__name__ = "a_growing_handler_table_is_padded_with_the_default_handler_types_%d_then_%d" % (t1, t2)
+  u.bound = "two registrations"
+  unit(P, target=OF + "OpenFlowHandlers.add_handler")(u)
+
+
+for _t1, _t2 in ((5, 2), (0, 6), (3, 3), (2, 5), (19, 1)):
+  _mk_padding(_t1, _t2)
